@@ -76,7 +76,7 @@ void pbt_generate(Rng& r, int size, Case& c) {
   //                         ins inshint rm rmit rmfront rmback clear copy assign bulk selfassign insref recreate count
   static const int w01[] = {30, 22, 12, 10, 4, 4, 1, 2, 2, 3, 1, 0, 1, 6};
   static const int w04[] = {24, 12, 8, 8, 3, 3, 2, 5, 5, 5, 5, 8, 5, 2};
-  static const int w05[] = {34, 20, 8, 8, 3, 3, 0, 1, 1, 2, 0, 0, 0, 2};
+  static const int w05[] = {34, 20, 8, 8, 3, 3, 1, 1, 1, 2, 0, 0, 0, 2};
   static const char* names[] = {"ins", "inshint", "rm", "rmit", "rmfront", "rmback", "clear", "copy", "assign", "bulk", "selfassign", "insref", "recreate", "count"};
   const int* w = pf == P_C04 ? w04 : pf == P_C05 ? w05 : w01;
   int asc = 0, desc = U, zig = 0;
